@@ -147,6 +147,7 @@ class SReal:
     @staticmethod
     def _rn(q):
         r = RN(q)
+        core.ENG.relaxations += 1
         a = z3.If(q >= 0, q, -q)
         core.ENG.add(z3.And(r - q <= U * a, q - r <= U * a))
         return SReal(r, exact=q)
@@ -170,6 +171,33 @@ class SReal:
 
     def __rtruediv__(self, o): return SReal.of(o)._binop(self, lambda a, b: a / b)
     def __neg__(self): return SReal(-self.t)
+    def __pos__(self): return self
+    def __abs__(self): return SReal(z3.If(self.t >= 0, self.t, -self.t))
+
+    def __floordiv__(self, o):
+        q = self / o
+        k = q.__floor__()
+        return SReal(z3.ToReal(k.t))
+
+    def __mod__(self, o):
+        # IEEE fmod/python % with a positive constant modulus: x - m*floor(x/m), computed exactly (the quotient's rounding is kept)
+        if not isinstance(o, (int, float, Fraction)) or o <= 0:
+            raise EngineLimit("float modulo by a non-constant / non-positive")
+        m = z3.RealVal(Fraction(o))
+        k = z3.Int(core.ENG.fresh_name("fmod"))
+        core.ENG.add(z3.And(z3.ToReal(k) * m <= self.t, self.t < (z3.ToReal(k) + 1) * m))
+        return SReal(self.t - z3.ToReal(k) * m)
+
+    def __divmod__(self, o):
+        return (self // o, self % o)
+
+    def __pow__(self, e):
+        if isinstance(e, int) and 0 <= e <= 3:
+            r = SReal.of(1)
+            for _ in range(e):
+                r = r * self
+            return r
+        raise EngineLimit("float power")
 
     def _cmp(f):
         def g(self, o):
